@@ -55,7 +55,8 @@ DL1    == {<<1>>}
 DL11   == {<<1, 1>>}
 DL121  == {<<1, 2, 1>>}
 DLAll  == {<<1>>, <<1, 2>>, <<1, 1>>, <<1, 2, 1>>}
-DLNoDup == {<<1>>, <<1, 2>>, <<2, 1>>}
+DLNoDup == {<<1>>, <<1, 2>>}
+DLDup == {<<1, 1>>, <<1, 2, 1>>}
 Dsts12 == {1, 2}
 Dsts123 == {1, 2, 3}
 IA1 == {1}
